@@ -464,10 +464,16 @@ impl Walrus {
                             info.cur_block_offset = 0;
                         }
                         for i in 0..ib {
-                            BlockStateTracker::set_checkpointed_true(info.chain[i].id as usize);
+                            BlockStateTracker::set_checkpointed_true(
+                                info.chain[i].id as usize,
+                                &info.chain[i].file_path,
+                            );
                         }
                         if ib < info.chain.len() && info.cur_block_offset >= info.chain[ib].used {
-                            BlockStateTracker::set_checkpointed_true(info.chain[ib].id as usize);
+                            BlockStateTracker::set_checkpointed_true(
+                                info.chain[ib].id as usize,
+                                &info.chain[ib].file_path,
+                            );
                         }
                     }
                 }
